@@ -228,6 +228,7 @@ def check(model: Model, run: Run) -> None:
                              model.loc(SCHEMA, wsite.node)))
     unescape_single_pass(model, run)
     int_presence_tests(model, run)
+    matched_text_is_the_input(model, run, "H11-definition-text-matched-as-given")
     from .c17 import extension_cut_positions
     extension_cut_positions(model, run, "H9-no-delimiter-search-across-quoted-values")
     from .c19 import parse_results_fresh
@@ -379,3 +380,100 @@ def int_presence_tests(model: Model, run: Run) -> None:
                                      "so the text parses back with None", model.loc(c.module, t_)))
         for k in sorted(intf):
             run.ob("H8-int-fields-tested-with-is-not-none", True, {"class": c.name, "field": k})
+
+
+STRIPS = ("strip", "lstrip", "rstrip")
+
+
+def matched_text_is_the_input(model: Model, run: Run, rule: str) -> None:
+    """H11: what from_string hands to the description pattern is its own argument (trimming the ends aside).  A definition
+    contains quoted strings with arbitrary characters, so any rewriting of the whole text before it is matched (unfolding,
+    whitespace normalisation, case folding) changes the content of DESC / extension values."""
+    from .c05 import may_raise
+    mr = may_raise(model)
+    sites = [s_ for s_ in find_sites(model) if s_.module == SCHEMA and s_.api in ("match", "fullmatch") and s_.subject is not None and s_.func in model.functions]
+
+    def origin(e: ast.expr, fi: FuncInfo, depth: int = 0):
+        """('param', name) | ('other', text) for where a str expression comes from"""
+        if depth > 6:
+            return [("other", norm(e))]
+        if isinstance(e, ast.Name):
+            if e.id in fi.params() and not any(isinstance(x, ast.Name) and x.id == e.id and isinstance(x.ctx, ast.Store) for x in walk_no_nested(fi.node)):
+                return [("param", e.id)]
+            binds = [a.value for a in walk_no_nested(fi.node) if isinstance(a, (ast.Assign, ast.AnnAssign)) and a.value is not None and
+                     any(isinstance(t_, ast.Name) and t_.id == e.id for t_ in (a.targets if isinstance(a, ast.Assign) else [a.target]))]
+            if e.id in fi.params():
+                binds = binds + [None]
+            if not binds:
+                return [("other", norm(e))]
+            out = []
+            for b in binds:
+                out += [("param", e.id)] if b is None else origin(b, fi, depth + 1)
+            return out
+        if isinstance(e, ast.Call) and isinstance(e.func, ast.Attribute) and e.func.attr in STRIPS and not e.keywords and \
+                (not e.args or (isinstance(e.args[0], ast.Constant) and isinstance(e.args[0].value, str) and e.args[0].value.strip() == "")):
+            return origin(e.func.value, fi, depth + 1)
+        if isinstance(e, ast.Call) and isinstance(e.func, ast.Name):
+            body = mr.predicate_body(e, fi)
+            if body is not None:
+                return origin(body, fi, depth + 1)
+        return [("other", norm(e))]
+
+    def callers_ok(fi: FuncInfo, pname: str, depth: int = 0):
+        """the text parameter `pname` of fi, followed to the from_string that received it: problems found on the way"""
+        if fi.name == "from_string" or depth > 3:
+            return [], 1
+        bad, n = [], 0
+        ps = fi.params()
+        idx = ps.index(pname)
+        for cq, cfi in model.functions.items():
+            if cfi.module != SCHEMA or isinstance(cfi.node, ast.Lambda) or cfi is fi:
+                continue
+            for c in walk_no_nested(cfi.node):
+                if not (isinstance(c, ast.Call) and isinstance(c.func, (ast.Name, ast.Attribute))):
+                    continue
+                nm = c.func.id if isinstance(c.func, ast.Name) else c.func.attr
+                if nm != fi.name:
+                    continue
+                off = 1 if (fi.cls and not fi.is_staticmethod and isinstance(c.func, ast.Attribute)) else 0
+                arg = next((k.value for k in c.keywords if k.arg == pname), None)
+                if arg is None and 0 <= idx - off < len(c.args):
+                    arg = c.args[idx - off]
+                if arg is None:
+                    continue
+                for kind, what in origin(arg, cfi):
+                    if kind == "other":
+                        bad.append((cfi, c, what))
+                    else:
+                        b2, n2 = callers_ok(cfi, what, depth + 1)
+                        bad += b2
+                        n += n2
+        return bad, n
+    n_top = 0
+    for s_ in sites:
+        fi = model.functions[s_.func]
+        for kind, what in origin(s_.subject, fi):
+            if kind == "param":
+                bad, n = callers_ok(fi, what)
+                if n == 0 and not bad:
+                    continue            # a sub-parser that is not fed from a from_string
+                n_top += n
+                run.ob(rule, not bad, {"function": fi.qualname.split(".")[-1], "pattern": s_.name, "text": norm(s_.subject)})
+                for cfi, c, w in bad:
+                    run.fail(Finding(rule, cfi.qualname, f"{s_.name}.match <- {w[:60]}",
+                                     f"{cfi.qualname.split('.')[-1]} passes `{w[:60]}` on to {fi.name}, which matches it against {s_.name}: the definition text is rewritten before it is parsed",
+                                     model.loc(cfi.module, c)))
+            elif fi.name == "from_string" or any(isinstance(x, ast.Name) and x.id in fi.params() for x in ast.walk(ast.parse(what, mode="eval"))):
+                # derived from a parameter by something other than trimming
+                roots = [x.id for x in ast.walk(ast.parse(what, mode="eval")) if isinstance(x, ast.Name) and x.id in fi.params()]
+                reaches = fi.name == "from_string" or any(callers_ok(fi, r_)[1] for r_ in roots)
+                if not roots or not reaches:
+                    continue
+                if isinstance(ast.parse(what, mode="eval").body, (ast.Subscript, ast.Attribute)) or ".group(" in what:
+                    continue            # a part of the text (a captured group, a slice): sub-parsers work on parts by design
+                n_top += 1
+                run.ob(rule, False, {"function": fi.qualname.split(".")[-1], "pattern": s_.name, "text": what})
+                run.fail(Finding(rule, fi.qualname, f"{s_.name}.match <- {what[:60]}",
+                                 f"{fi.qualname.split('.')[-1]} matches {s_.name} against `{what[:60]}`, not against the text it was given: quoted strings inside a definition may contain "
+                                 "any character, so rewriting the text before parsing changes their content", model.loc(fi.module, s_.node)))
+    run.floor("description patterns matched against a from_string argument", n_top, 3)
